@@ -143,6 +143,29 @@ func (r *rewriter) rewriteCall(c *astutil.Cursor, call *ast.CallExpr) {
 		}
 		return
 	}
+	if r.hb && !r.isExtPkg {
+		// synchronisation the happens-before tracking has no model for: the race verdicts of this build are switched
+		// off rather than risk an edge that is missing
+		unhandled := false
+		switch {
+		case pkgPath == "sync" && sig != nil && sig.Recv() != nil:
+			rt := sig.Recv().Type().String()
+			switch {
+			case strings.Contains(rt, "sync.Mutex"), strings.Contains(rt, "sync.RWMutex"), strings.Contains(rt, "sync.WaitGroup"), strings.Contains(rt, "sync.Once"):
+			default:
+				unhandled = true
+			}
+		case pkgPath == "sync" && (f.Name() == "OnceFunc" || f.Name() == "OnceValue" || f.Name() == "OnceValues" || f.Name() == "NewCond"):
+			unhandled = true
+		case strings.HasPrefix(pkgPath, "golang.org/x/sync/"):
+			unhandled = true
+		case full == "time.AfterFunc":
+			unhandled = true
+		}
+		if unhandled {
+			st.HBUnhandled = append(st.HBUnhandled, fmt.Sprintf("%s:%d %s", r.rel, r.fset.Position(call.Pos()).Line, full))
+		}
+	}
 	if r.hb && full == "(*sync.Once).Do" && !r.noWrap[call] {
 		if p := r.recvPtr(sel); p != nil {
 			c.Replace(r.rtCall("OnceDo", r.site(call, "once"), p, call.Args[0]))
